@@ -241,6 +241,21 @@ def run_case(case, drv):
             m = drv.call("fs.meaning", paths=PATHS, vals=VALS, structures=[x, y])
             want = sorted(set(m[0]) & set(m[1]))
             res.evals += 1
+            # step-faithful tie: the pointer-level model of unify (Pfl/Model/FeatureDag.lean)
+            md = drv.call("fs.unifyDag", paths=PATHS, a=x, b=y)
+            res.corr += 1
+            if "conflict" in md:
+                if got != ("exc", "FeatureStructuresNotCompatibleException"):
+                    res.corr_break("unify", "model raises a conflict, the implementation does not",
+                                   detail={"order": tag, "a": x, "b": y, "impl": str(got)})
+            elif got[0] != "ok":
+                res.corr_break("unify", "implementation raises, the model does not",
+                               detail={"order": tag, "a": x, "b": y, "impl": str(got)})
+            else:
+                r_ = read_sfs(fx)
+                if [list(map(lambda z: z if not isinstance(z, tuple) else list(z), e)) for e in r_] != md["ok"]:
+                    res.corr_break("unify", "receiver differs from the pointer-level model",
+                                   detail={"order": tag, "a": x, "b": y, "impl": r_, "model": md["ok"]})
             if not want:
                 if got != ("exc", "FeatureStructuresNotCompatibleException"):
                     res.violation("unify", "structures without a common instance are not refused",
